@@ -16,8 +16,25 @@ Definition shutting_down (c : nctl) : bool := n_down c || n_sdsent c.
 
 Definition ntable := amap nctl.
 
+(* hook calls made by DSession on the controller (what plugins and the terminal see) *)
+Inductive hookcall :=
+| HNodeReady (n : nat)
+| HNodeDown (n : nat) (err : bool)                    (* pytest_testnodedown(node, error) *)
+| HCollFinished (n : nat)                             (* pytest_xdist_node_collection_finished *)
+| HLogStart (n i : nat)
+| HLogFinish (n i : nat)
+| HReport (n i k : nat) (oc : outcome)                (* pytest_runtest_logreport(rep), rep.node = n *)
+| HCrashItem (nodeid : string) (n : nat)              (* pytest_handlecrashitem *)
+| HCrashReport (nodeid : string) (n : nat)            (* the synthesized 'crashed while running' report *)
+| HCollectReport (key : nat) (failed : bool)          (* pytest_collectreport forwarded from a worker *)
+| HInternalError (n : nat)
+| HWarning
+| HSpawn (newid spec : nat)                           (* _clone_node: replacement worker started *)
+| HSummary (restart_disabled : bool).                 (* _summary_report set *)
+
 (* what a controller-side method call makes visible *)
 Inductive out :=
+| OHook (h : hookcall)
 | OSend (n : nat) (c : cmd)                 (* a command put on worker n's channel *)
 | OCollDiff (first : nat) (other : nat)     (* failed CollectReport posted by a scheduler for node [other] *)
 | OLogDiff (first : nat) (other : nat).     (* collection difference only logged (late worker) *)
